@@ -738,15 +738,20 @@ impl Parser {
             }
         }
 
+        // a quoted literal is always text, even when it spells a column or function name
+        let quoted = matches!(lexem, Some(Lexem::String(_)));
+
         match lexem {
             Some(Lexem::String(ref s)) | Some(Lexem::RawString(ref s)) => {
-                if let Ok(field) = Field::from_str(s) {
-                    let mut expr = Expr::field(field);
-                    expr.minus = minus;
-                    return Ok(Some(expr));
+                if !quoted {
+                    if let Ok(field) = Field::from_str(s) {
+                        let mut expr = Expr::field(field);
+                        expr.minus = minus;
+                        return Ok(Some(expr));
+                    }
                 }
 
-                if let Ok(function) = Function::from_str(s) {
+                if let (false, Ok(function)) = (quoted, Function::from_str(s)) {
                     match self.parse_function(function) {
                         Ok(expr) => {
                             let mut expr = expr;
